@@ -87,7 +87,8 @@ static std::string tags(const double *y, size_t num_doubles){
     for(size_t i=0; i + g_nout <= num_doubles; i += g_nout){ if (i) s += ","; s += std::to_string(tag_of(y[i + 1])); }
     return s + "]";
 }
-static void put_locked(const std::string &line){ logbuf += line; logbuf += "\n"; }
+static std::atomic<long long> last_event_ms(0);
+static void put_locked(const std::string &line){ logbuf += line; logbuf += "\n"; last_event_ms = now_ms(); }
 static void flush_file(){
     FILE *f = fopen(out_path, "a");
     if (f){ fwrite(logbuf.data(), 1, logbuf.size(), f); fclose(f); }
@@ -184,11 +185,12 @@ static void watchdog(long long hang_ms){
     while(true){
         std::this_thread::sleep_for(std::chrono::milliseconds(100));
         long long st = scen_started_ms.load();
-        if (st >= 0 && now_ms() - st > hang_ms){
+        // a hang = no event at all for hang_ms (a slow scenario keeps producing events)
+        if (st >= 0 && now_ms() - std::max(st, last_event_ms.load()) > hang_ms){
             { std::lock_guard<std::mutex> lock(logm); put_locked("{\"e\":\"Hang\"}"); flush_file(); }
             _exit(97);
         }
-        if (model_calls.load() > 20000){
+        if (model_calls.load() > 20000 || (st >= 0 && now_ms() - st > 15 * hang_ms)){
             { std::lock_guard<std::mutex> lock(logm); put_locked("{\"e\":\"Runaway\"}"); flush_file(); }
             _exit(98);
         }
